@@ -39,7 +39,7 @@ use crate::gen::circuit::{circ_hash, circ_json, gen_circuit, to_quizx, CircParam
 use crate::gen::diagram::*;
 use crate::gen::prng::{hash_bytes, Rng};
 use crate::gen::shapes::{flags_of, gen_shapes, minimise};
-use crate::oracle::eval::{self, EvalError};
+use crate::oracle::eval::{self, EvalError, EK, VK};
 use crate::oracle::ring::{cf_of_scalar, r_of_scalar, scalar_is_approx, scalar_of_r, Cf, Num, R};
 use crate::oracle::sim::{self, Circ, G};
 use crate::oracle::tmodel::{self, flat_of, index_of, InvSqrt2, MT};
@@ -919,8 +919,12 @@ fn gen_qs(r: &mut Rng, nd: usize) -> Vec<usize> {
 }
 
 fn check_inplace<A: Elem>(family: &'static str, index: u64, r: &mut Rng) {
-    let c = ctx();
     let nd = 1 + r.below(5);
+    check_inplace_nd::<A>(family, index, r, nd)
+}
+
+fn check_inplace_nd<A: Elem>(family: &'static str, index: u64, r: &mut Rng, nd: usize) {
+    let c = ctx();
     let zp = *r.pick(&[0.0, 0.3]);
     let m0 = gen_mt::<A>(r, nd, zp);
     let layout = Layout::pick(r, nd);
@@ -937,7 +941,8 @@ fn check_inplace<A: Elem>(family: &'static str, index: u64, r: &mut Rng) {
     let mut history = vec![];
     for _ in 0..nops {
         let op = match r.below(3) {
-            0 => Op::Had(r.below(nd)),
+            // the first and the last axis are where a size-dependent strategy would special-case
+            0 => Op::Had(if nd > 6 && r.chance(0.6) { *r.pick(&[0, nd - 1]) } else { r.below(nd) }),
             1 => Op::Delta(gen_qs(r, nd)),
             _ => Op::CPhase(A::gen_ph(r), gen_qs(r, nd)),
         };
@@ -1662,7 +1667,89 @@ pub fn run() {
         check_circuit("circ-short", i, &circ);
     });
 
+    // 8-9 qubits: tensors of 2^16 entries and more (the helpers are free to switch strategy by size)
+    par_cases("circ-wide", t.pick(80usize, 2_500usize), move |r, i| {
+        let mut p = circ_params(9, 10, if r.chance(0.7) { PhPool::Exact } else { PhPool::Float }, true);
+        p.min_qubits = 8;
+        let mut circ = gen_circuit(r, &p);
+        // the ends of the register see every kind of step, swaps included
+        let n = circ.n;
+        for _ in 0..r.below(4) {
+            let q = *r.pick(&[0, n - 1]);
+            let other = 1 + r.below(n - 2);
+            let g = match r.below(5) {
+                0 => G::H(q),
+                1 => G::Swap(q, other),
+                2 => G::Cx(other, q),
+                3 => G::Rx(q, (1, 4)),
+                _ => G::Swap(other, q),
+            };
+            let pos = r.below(circ.gates.len() + 1);
+            circ.gates.insert(pos, g);
+        }
+        check_circuit("circ-wide", i, &circ);
+    });
+    // 8 wires in, 8 wires out (16-17 open indices while contracting), a few spiders per wire,
+    // some cross links between neighbouring wires, the odd extra boundary
+    par_cases("diag-wide", t.pick(40usize, 1_500usize), move |r, i| {
+        let m = 8;
+        let mut verts: Vec<DV> = vec![];
+        let mut edges: Vec<(usize, usize, EK)> = vec![];
+        let (mut inputs, mut outputs) = (vec![], vec![]);
+        let mut mids: Vec<Vec<usize>> = vec![];
+        let ek = |r: &mut Rng| if r.chance(0.3) { EK::H } else { EK::N };
+        for _ in 0..m {
+            let bi = verts.len();
+            verts.push(DV { kind: VK::B, ph: (0, 1), vars: vec![] });
+            inputs.push(bi);
+            let len = r.below(3);
+            let mut prev = bi;
+            let mut mine = vec![];
+            for _ in 0..len {
+                let v = verts.len();
+                verts.push(DV { kind: if r.chance(0.6) { VK::Z } else { VK::X }, ph: gen_phase(r, PhasePool::Exact), vars: vec![] });
+                let k = ek(r);
+                edges.push((prev, v, k));
+                mine.push(v);
+                prev = v;
+            }
+            let bo = verts.len();
+            verts.push(DV { kind: VK::B, ph: (0, 1), vars: vec![] });
+            let k = ek(r);
+            edges.push((prev, bo, k));
+            outputs.push(bo);
+            mids.push(mine);
+        }
+        for w in 0..m - 1 {
+            if !mids[w].is_empty() && !mids[w + 1].is_empty() && r.chance(0.4) {
+                let (a, b) = (*r.pick(&mids[w]), *r.pick(&mids[w + 1]));
+                let k = ek(r);
+                edges.push((a.min(b), a.max(b), k));
+            }
+        }
+        if r.chance(0.3) {
+            // a 17th open index
+            if let Some(w) = (0..m).find(|&w| !mids[w].is_empty()) {
+                let b = verts.len();
+                verts.push(DV { kind: VK::B, ph: (0, 1), vars: vec![] });
+                edges.push((mids[w][0], b, EK::N));
+                outputs.push(b);
+            }
+        }
+        r.shuffle(&mut inputs);
+        let d = DDesc { verts, edges, inputs, outputs, scalar: gen_scalar(r) };
+        check_diagram("diag-wide", i, r, &d, ScalarMode::AsDescribed);
+    });
+
     // ---- helpers ------------------------------------------------------------------------
+    par_cases("helpers-inplace-large-exact", t.pick(24usize, 600usize), |r, i| {
+        let nd = 15 + r.below(3);
+        check_inplace_nd::<Scalar4>("helpers-inplace-large-exact", i, r, nd)
+    });
+    par_cases("helpers-inplace-large-float", t.pick(24usize, 600usize), |r, i| {
+        let nd = 15 + r.below(3);
+        check_inplace_nd::<Complex<f64>>("helpers-inplace-large-float", i, r, nd)
+    });
     run_constructors::<Scalar4>("helpers-constructors-exact");
     run_constructors::<Complex<f64>>("helpers-constructors-float");
     par_cases("helpers-inplace-exact", 600 * k, |r, i| check_inplace::<Scalar4>("helpers-inplace-exact", i, r));
